@@ -172,7 +172,7 @@ func boolSpaces(tier string) []*BoolSpace {
 		for _, e := range region {
 			out = append(out, spPair("B2", e, 3, 3, 3, 4), spTwo(e, 3, 3, 4))
 		}
-		out = append(out, spSingle(enum.Eax, 3, 6, 4), spPair("B2", enum.Ean, 3, 3, 3, 4), spThree(enum.Eax, 10, 5))
+		out = append(out, spSingle(enum.Eax, 3, 6, 4), spPair("B2", enum.Ean, 3, 3, 3, 4), spThree(enum.Eax, 10, 5), spThree(enum.Ean, 13, 5), spThree(enum.Esh, 13, 5))
 		return out
 	}
 	all := []enum.Embed{enum.Eax, enum.Esh, enum.Ean, enum.Ebig}
@@ -188,7 +188,7 @@ func boolSpaces(tier string) []*BoolSpace {
 	for _, e := range []enum.Embed{enum.Eax, enum.Ean} {
 		out = append(out, spPair("B4", e, 4, 3, 3, 6))
 	}
-	out = append(out, spThree(enum.Eax, 5, 6), spThree(enum.Esh, 7, 6))
+	out = append(out, spThree(enum.Eax, 5, 6), spThree(enum.Esh, 7, 6), spThree(enum.Ean, 7, 6), spThree(enum.Eax, 3, 7))
 	out = append(out, spShapes(enum.Eax, 5, 6))
 	return out
 }
